@@ -61,7 +61,7 @@ fn at<'a>(v: &'a Value, k: usize) -> &'a Value {
     }
 }
 
-fn check_case(case: &Value) -> Option<Value> {
+fn check_case(case: &Value, style: usize) -> Option<Value> {
     let chains = obj_keys_sorted(&case["chains"]);
     let calls = Arc::new(Mutex::new(vec![]));
     let handled = Arc::new(AtomicUsize::new(0));
@@ -70,14 +70,41 @@ fn check_case(case: &Value) -> Option<Value> {
     for (a, chain) in &chains {
         let n = Arc::new(AtomicUsize::new(0));
         counters.push((*a, n.clone()));
+        // the chain is declared through the builder in varying styles: filter() one by one, filters() at
+        // once, or a mixture - the declaration order is what counts
         let mut ab = log4rs::config::Appender::builder();
-        for (i, r) in chain.as_array().unwrap().iter().enumerate() {
-            ab = ab.filter(Box::new(ScriptedFilter {
-                app: *a,
-                idx: i + 1,
-                resp: r.as_str().unwrap().chars().next().unwrap(),
-                calls: calls.clone(),
-            }));
+        let fs: Vec<Box<dyn Filter>> = chain
+            .as_array()
+            .unwrap()
+            .iter()
+            .enumerate()
+            .map(|(i, r)| {
+                Box::new(ScriptedFilter { app: *a, idx: i + 1, resp: r.as_str().unwrap().chars().next().unwrap(), calls: calls.clone() })
+                    as Box<dyn Filter>
+            })
+            .collect();
+        match (style + *a) % 4 {
+            0 => {
+                for f in fs {
+                    ab = ab.filter(f);
+                }
+            }
+            1 => ab = ab.filters(fs),
+            2 => {
+                let mut it = fs.into_iter();
+                if let Some(first) = it.next() {
+                    ab = ab.filter(first);
+                }
+                ab = ab.filters(it.collect::<Vec<_>>());
+            }
+            _ => {
+                let mut fs = fs;
+                let last = fs.pop();
+                ab = ab.filters(fs);
+                if let Some(l) = last {
+                    ab = ab.filter(l);
+                }
+            }
         }
         let fail = at(&case["outc"], *a) == "Err";
         b = b.appender(ab.build(a.to_string(), Box::new(ScriptedAppender { n, fail })));
@@ -166,7 +193,7 @@ pub fn main(args: &[String]) {
     let meta = rows.iter().find(|r| r["meta"] == "threshold").expect("no threshold table");
     let cases: Vec<&Value> = rows.iter().filter(|r| r.get("meta").is_none()).collect();
     let mut res = par_map(&cases, threads(), |i, c| {
-        check_case(c).into_iter().map(|m| json!({"case": i, "input": c, "mismatch": m})).collect()
+        check_case(c, i).into_iter().map(|m| json!({"case": i, "input": c, "mismatch": m})).collect()
     });
     res.extend(check_threshold(meta));
     write_ndjson(&args[1], &res);
